@@ -171,7 +171,7 @@ func TestVerifC29(t *testing.T) {
 	rep := vfNewReport("C29", "generated requests of the six command types; statement counts and SQL byte sizes at threshold-1/threshold/threshold+1/2x; default (512/4096) and random marshaler thresholds incl. 0 and negative; forced or not; non-trivial = compression was attempted (a threshold reached); distinct by entry bytes + settings")
 	defer rep.Write()
 	r := vfNewRng(29)
-	n := vfScale(1000, 150000)
+	n := vfScale(700, 150000)
 	var ops, impl []string
 	for i := 0; i < n; i++ {
 		m := NewRequestMarshaler()
